@@ -834,3 +834,721 @@ def all_cases(rng, layouts, full):
     cs += cases_fit(rng, layouts, full)
     cs += cases_pure(rng, layouts, full)
     return cs
+
+
+# ----------------------------------------------------------------------------------------------------------------
+# static scan: python source -> structured heap programs -> Lean ownership analysis
+# ----------------------------------------------------------------------------------------------------------------
+UNKNOWN_ATTR = 999          # `.load d 999`: something reachable from object state / an opaque call: never owned
+NP_ASARRAY = {"asarray", "asanyarray", "ascontiguousarray", "asfortranarray", "require", "nan_to_num"}
+NP_VIEW = {"atleast_1d", "atleast_2d", "atleast_3d", "ravel", "squeeze", "swapaxes", "transpose", "moveaxis", "rollaxis",
+           "expand_dims", "broadcast_to", "broadcast_arrays", "real", "imag", "diagonal", "diag", "flip", "fliplr", "flipud", "rot90",
+           "getmaskarray", "getmask", "getdata", "split", "array_split", "hsplit", "vsplit", "nditer", "ndenumerate", "flatiter"}
+NP_INPLACE_ARG0 = {"put", "place", "copyto", "putmask", "fill_diagonal", "put_along_axis", "shuffle"}
+VIEW_METHODS = {"ravel", "squeeze", "swapaxes", "transpose", "view", "diagonal", "byteswap", "newbyteorder", "get", "values", "items",
+                "pop", "setdefault", "popitem", "__getitem__", "harden_mask", "soften_mask", "unshare_mask", "shrink_mask"}
+INPLACE_METHODS = {"sort", "fill", "resize", "put", "itemset", "partition", "byteswap", "setfield", "setflags", "reverse"}
+CONTAINER_ABSORB = {"append", "extend", "insert", "update", "add"}
+VIEW_ATTRS = {"T", "mT", "real", "imag", "flat", "data", "mask", "base", "recordmask"}
+SCALAR_ATTRS = {"shape", "size", "ndim", "dtype", "itemsize", "nbytes", "strides", "flags", "fill_value"}
+META_ATTRS = {"mask", "shape", "dtype", "strides", "fill_value", "flat", "data", "real", "imag"}
+BUILTIN_FRESH = {"len", "float", "int", "bool", "str", "repr", "isinstance", "issubclass", "callable", "hasattr", "min", "max", "abs",
+                 "sum", "round", "range", "type", "id", "hash", "format", "divmod", "pow", "ord", "chr", "any", "all", "print", "open",
+                 "super", "object", "ValueError", "TypeError", "KeyError", "RuntimeError", "NotImplementedError", "Warning",
+                 "slice", "complex", "bytes", "frozenset", "property", "staticmethod", "classmethod", "vars", "dir", "locals", "globals"}
+BUILTIN_VIEW = {"list", "tuple", "set", "dict", "sorted", "reversed", "zip", "enumerate", "iter", "next", "map", "filter", "copy"}
+CONTAINER_CTORS = {"list", "tuple", "set", "dict"}
+
+
+def dotted(node):
+    parts = []
+    while isinstance(node, ast.Attribute):
+        parts.append(node.attr)
+        node = node.value
+    if isinstance(node, ast.Name):
+        parts.append(node.id)
+        return ".".join(reversed(parts))
+    return None
+
+
+class FuncInfo:
+    def __init__(self, rel, qual, node, is_method, cls):
+        self.rel, self.qual, self.node, self.is_method, self.cls = rel, qual, node, is_method, cls
+        a = node.args if not isinstance(node, ast.Module) and not isinstance(node, ast.ClassDef) else None
+        self.params = [x.arg for x in (a.posonlyargs + a.args)] if a else []
+        self.kwonly = [x.arg for x in a.kwonlyargs] if a else []
+        self.vararg = a.vararg.arg if a and a.vararg else None
+        self.kwarg = a.kwarg.arg if a and a.kwarg else None
+        self.name = qual.split(".")[-1]
+        self.private = self.name.startswith("_") and not (self.name.startswith("__") and self.name.endswith("__"))
+
+    @property
+    def key(self):
+        return (self.rel, self.qual)
+
+
+class Package:
+    """all functions / classes / imports of the package"""
+
+    def __init__(self, root):
+        self.funcs = []
+        self.by_name = {}
+        self.classes = set()
+        self.imports = {}   # rel -> {local name: ("mod", full) | ("obj", module, name)}
+        self.sources = {}
+        for d, _, files in sorted(os.walk(root)):
+            for f in sorted(files):
+                if not f.endswith(".py"):
+                    continue
+                path = os.path.join(d, f)
+                rel = os.path.relpath(path, root)
+                src = open(path).read()
+                tree = ast.parse(src)
+                self.sources[rel] = src
+                imp = {}
+                for n in ast.walk(tree):
+                    if isinstance(n, ast.Import):
+                        for a in n.names:
+                            imp[a.asname or a.name.split(".")[0]] = ("mod", a.name if a.asname else a.name.split(".")[0])
+                    elif isinstance(n, ast.ImportFrom):
+                        for a in n.names:
+                            imp[a.asname or a.name] = ("obj", n.module or "", a.name)
+                self.imports[rel] = imp
+                self._collect(rel, tree, "", None)
+                self.funcs.append(FuncInfo(rel, "<module>", tree, False, None))
+        for fi in self.funcs:
+            self.by_name.setdefault(fi.name, []).append(fi)
+
+    def _collect(self, rel, node, prefix, cls):
+        for ch in ast.iter_child_nodes(node):
+            if isinstance(ch, (ast.FunctionDef, ast.AsyncFunctionDef)):
+                q = prefix + ch.name
+                self.funcs.append(FuncInfo(rel, q, ch, cls is not None and bool(ch.args.args) and ch.args.args[0].arg in ("self", "cls"), cls))
+                self._collect(rel, ch, q + ".", None)
+            elif isinstance(ch, ast.ClassDef):
+                self.classes.add(ch.name)
+                self.funcs.append(FuncInfo(rel, prefix + ch.name + ".<class>", ch, False, None))
+                self._collect(rel, ch, prefix + ch.name + ".", ch.name)
+            elif isinstance(ch, ast.Lambda):
+                pass
+            else:
+                self._collect(rel, ch, prefix, cls)
+
+
+class Tr:
+    """syntax-directed translation of one function body into a structured heap program"""
+
+    def __init__(self, pkg, fi, summ):
+        self.pkg, self.fi, self.summ = pkg, fi, summ
+        self.imp = pkg.imports[fi.rel]
+        self.vars, self.nvar = {}, 0
+        self.blocks = [[]]
+        self.sites = []       # dicts: sid, kind ('site' | 'ret'), text, line, what
+        self.containers = set()
+        self.local_defs = set()
+
+    # -- plumbing
+    def var(self, name):
+        if name not in self.vars:
+            self.vars[name] = self.nvar
+            self.nvar += 1
+        return self.vars[name]
+
+    def tmp(self):
+        self.nvar += 1
+        return self.nvar - 1
+
+    def emit(self, k, a=0, b=0, c=False, sid=None):
+        o = {"k": k, "a": a, "b": b}
+        if k == "view":
+            o["c"] = bool(c)
+        if sid is not None:
+            o["sid"] = sid
+        self.blocks[-1].append(o)
+
+    def block(self, fn):
+        self.blocks.append([])
+        fn()
+        return self.blocks.pop()
+
+    def ite(self, fa, fb):
+        c0 = set(self.containers)
+        a = self.block(fa)
+        ca = set(self.containers)
+        self.containers = set(c0)
+        b = self.block(fb)
+        self.containers &= ca
+        self.blocks[-1].append({"k": "ite", "a": a, "b": b})
+
+    def loop(self, fbody):
+        c0 = set(self.containers)
+        mark = len(self.sites)
+        self.block(fbody)                       # dry run: which names stay containers through an iteration
+        self.containers &= c0
+        del self.sites[mark:]
+        body = self.block(fbody)
+        self.containers &= c0
+        self.blocks[-1].append({"k": "loop", "a": body})
+
+    def site(self, opk, v, node, what, kind="site"):
+        sid = len(self.sites)
+        try:
+            text = ast.unparse(node)
+        except Exception:   # noqa: BLE001
+            text = "?"
+        text = " ".join(text.split())[:150]
+        self.sites.append({"sid": sid, "kind": kind, "text": text, "line": getattr(node, "lineno", 0), "what": what})
+        self.emit(opk, v, sid=sid)
+
+    def join(self, vs):
+        """a value that is one of `vs` (python container literal / or-expression)"""
+        t = self.tmp()
+        if not vs:
+            self.emit("scalar", t)
+            return t
+
+        def rec(i):
+            if i == len(vs) - 1:
+                self.emit("view", t, vs[i], True)
+            else:
+                self.ite(lambda: self.emit("view", t, vs[i], True), lambda: rec(i + 1))
+        rec(0)
+        return t
+
+    def fresh(self):
+        t = self.tmp()
+        self.emit("fresh", t)
+        return t
+
+    def scalar(self):
+        t = self.tmp()
+        self.emit("scalar", t)
+        return t
+
+    def unknown(self):
+        t = self.tmp()
+        self.emit("load", t, UNKNOWN_ATTR)
+        return t
+
+    def unary(self, k, v, c=True):
+        t = self.tmp()
+        self.emit(k, t, v, c)
+        return t
+
+    # -- expressions
+    def ex(self, e):
+        if e is None:
+            return self.scalar()
+        m = getattr(self, "ex_" + type(e).__name__, None)
+        if m is None:
+            for ch in ast.iter_child_nodes(e):
+                if isinstance(ch, ast.expr):
+                    self.ex(ch)
+            return self.fresh()
+        return m(e)
+
+    def ex_Name(self, e):
+        if e.id in ("None", "True", "False"):
+            return self.scalar()
+        if e.id not in self.vars and (e.id in self.imp or e.id in self.pkg.classes or e.id in BUILTIN_FRESH or e.id in BUILTIN_VIEW):
+            return self.scalar()
+        return self.var(e.id)
+
+    def ex_Constant(self, e):
+        return self.scalar()
+
+    def ex_JoinedStr(self, e):
+        for v in e.values:
+            if isinstance(v, ast.FormattedValue):
+                self.ex(v.value)
+        return self.scalar()
+
+    def ex_Lambda(self, e):
+        return self.scalar()
+
+    def ex_BinOp(self, e):
+        a, b = self.ex(e.left), self.ex(e.right)
+        if isinstance(e.op, ast.Mult) and (isinstance(e.left, (ast.List, ast.Tuple)) or isinstance(e.right, (ast.List, ast.Tuple))):
+            return a if isinstance(e.left, (ast.List, ast.Tuple)) else b     # [x] * n: same elements
+        if isinstance(e.op, ast.Add) and (isinstance(e.left, (ast.List, ast.Tuple)) or isinstance(e.right, (ast.List, ast.Tuple))):
+            return self.join([a, b])                                           # list concatenation
+        return self.fresh()
+
+    def ex_UnaryOp(self, e):
+        self.ex(e.operand)
+        return self.fresh()
+
+    def ex_Compare(self, e):
+        self.ex(e.left)
+        for c in e.comparators:
+            self.ex(c)
+        return self.fresh()
+
+    def ex_BoolOp(self, e):
+        return self.join([self.ex(v) for v in e.values])
+
+    def ex_IfExp(self, e):
+        self.ex(e.test)
+        t = self.tmp()
+        self.ite(lambda: self.emit("view", t, self.ex(e.body), True), lambda: self.emit("view", t, self.ex(e.orelse), True))
+        return t
+
+    def ex_NamedExpr(self, e):
+        v = self.ex(e.value)
+        self.assign(e.target, v, e.value, e)
+        return v
+
+    def ex_Starred(self, e):
+        return self.ex(e.value)
+
+    def _seq(self, e):
+        return self.join([self.ex(x) for x in e.elts])
+
+    ex_List = ex_Tuple = ex_Set = _seq
+
+    def ex_Dict(self, e):
+        for k in e.keys:
+            if k is not None:
+                self.ex(k)
+        return self.join([self.ex(v) for v in e.values])
+
+    def _comp(self, e, elts):
+        t = self.tmp()
+        self.emit("scalar", t)
+
+        def body(gens=list(e.generators)):
+            def rec(i):
+                if i == len(gens):
+                    vs = [self.ex(x) for x in elts]
+                    j = self.join(vs)
+                    self.ite(lambda: None, lambda: self.emit("view", t, j, True))
+                    return
+                g = gens[i]
+                it = self.ex(g.iter)
+                self.loop(lambda: (self.assign_iter(g.target, it, g.iter), [self.ex(c) for c in g.ifs], rec(i + 1)))
+            rec(0)
+        body()
+        return t
+
+    def ex_ListComp(self, e):
+        return self._comp(e, [e.elt])
+
+    ex_SetComp = ex_GeneratorExp = ex_ListComp
+
+    def ex_DictComp(self, e):
+        return self._comp(e, [e.key, e.value])
+
+    def ex_Subscript(self, e):
+        v = self.ex(e.value)
+        self.ex_slice(e.slice)
+        return self.unary("view", v, False)
+
+    def ex_slice(self, s):
+        if isinstance(s, ast.Slice):
+            for x in (s.lower, s.upper, s.step):
+                if x is not None:
+                    self.ex(x)
+        elif isinstance(s, ast.Tuple):
+            for x in s.elts:
+                self.ex_slice(x)
+        else:
+            self.ex(s)
+
+    def is_module(self, name):
+        return name is not None and name not in self.vars and self.imp.get(name, ("",))[0] == "mod"
+
+    def ex_Attribute(self, e):
+        d = dotted(e)
+        if d and self.is_module(d.split(".")[0]):
+            return self.scalar()            # module constant (np.pi, np.nan, config.X, np.ma.nomask)
+        v = self.ex(e.value)
+        if e.attr in VIEW_ATTRS:
+            return self.unary("view", v, False)
+        if e.attr in SCALAR_ATTRS:
+            return self.scalar()
+        return self.unknown()               # object state
+
+    def ex_Yield(self, e):
+        v = self.ex(e.value) if e.value is not None else self.scalar()
+        self.site("setItem", v, e, "returned value", kind="ret")
+        return self.scalar()
+
+    ex_YieldFrom = ex_Yield
+
+    def ex_Await(self, e):
+        return self.ex(e.value)
+
+    # -- calls
+    def ex_Call(self, e):
+        f = e.func
+        args = [self.ex(a) for a in e.args]
+        kws = {k.arg: self.ex(k.value) for k in e.keywords}
+        kwnodes = {k.arg: k.value for k in e.keywords}
+        d = dotted(f)
+        root = d.split(".")[0] if d else None
+        last = d.split(".")[-1] if d else (f.attr if isinstance(f, ast.Attribute) else None)
+
+        def const_true(name):
+            n = kwnodes.get(name)
+            return isinstance(n, ast.Constant) and n.value is True
+
+        if "out" in kws:                                       # ufunc(..., out=x): written in place, and returned
+            self.site("setItem", kws["out"], e, "out= argument")
+            return self.unary("view", kws["out"], True)
+        if d and self.is_module(root):
+            full = self.imp[root][1] + d[len(root):]
+            if full.startswith("numpy"):
+                a0 = args[0] if args else self.scalar()
+                if last in ("array", "masked_array") and ".ma." in full + ".":
+                    return self.unary("maCopy" if const_true("copy") else "maArray", a0)
+                if full.endswith(".ma.asarray") or full.endswith(".ma.asanyarray"):
+                    return self.unary("maArray", a0)
+                if last == "array":
+                    n = kwnodes.get("copy")
+                    if isinstance(n, ast.Constant) and n.value in (False, None):
+                        return self.unary("asarray", a0)
+                    return self.unary("copy", a0)
+                if last in NP_ASARRAY:
+                    return self.unary("asarray", a0)
+                if last == "reshape":
+                    return self.unary("reshape", a0)
+                if last in NP_VIEW:
+                    return self.unary("view", a0, False)
+                if last in NP_INPLACE_ARG0:
+                    self.site("setItem", a0, e, f"np.{last} writes its first argument")
+                    return self.scalar()
+                return self.fresh()
+            if full in ("copy.copy",):
+                return self.unary("view", args[0] if args else self.scalar(), True)
+            if full.startswith("gstools"):
+                return self.pkg_call(last, args, kws, e, method=False)
+            return self.fresh()                                # scipy / hankel / emcee / stdlib: results are new objects
+        if isinstance(f, ast.Name):
+            n = f.id
+            if n in self.vars and n not in self.local_defs:
+                return self.unknown()                          # a callable held in a variable (user function)
+            if n in self.imp and self.imp[n][0] == "obj":
+                mod = self.imp[n][1]
+                if n == "copy" and mod == "copy":
+                    return self.unary("view", args[0] if args else self.scalar(), True)
+                if not mod.startswith("gstools") and not mod.startswith("."):
+                    return self.fresh()
+                return self.pkg_call(self.imp[n][2], args, kws, e, method=False)
+            if n in self.pkg.by_name or n in self.pkg.classes:
+                return self.pkg_call(n, args, kws, e, method=False)
+            if n == "getattr":
+                return self.unknown()
+            if n == "setattr":
+                if len(args) >= 3:
+                    self.emit("store", 998, args[2])
+                return self.scalar()
+            if n in BUILTIN_VIEW:
+                return self.join(args) if args else self.scalar()
+            return self.fresh() if n not in ("partial",) else self.unknown()
+        if isinstance(f, ast.Attribute):
+            obj = self.ex(f.value)
+            m = f.attr
+            if m == "reshape":
+                return self.unary("reshape", obj)
+            if m == "filled":
+                return self.unary("filled", obj)
+            if m in INPLACE_METHODS and not (m == "put" and False):
+                self.site("setItem", obj, e, f".{m}() works in place")
+                return self.unary("view", obj, True) if m == "byteswap" else self.scalar()
+            if m in CONTAINER_ABSORB:
+                j = self.join([obj] + args + list(kws.values()))
+                if isinstance(f.value, ast.Name):
+                    self.emit("view", self.var(f.value.id), j, True)
+                return self.scalar()
+            if m == "copy":
+                base = f.value.id if isinstance(f.value, ast.Name) else None
+                return self.unary("view", obj, True) if base in self.containers else self.fresh()
+            if m in VIEW_METHODS:
+                return self.unary("view", obj, False)
+            if m in self.pkg.by_name:
+                return self.pkg_call(m, args, kws, e, method=True)
+            if m in ("astype", "flatten", "tolist", "item", "sum", "mean", "min", "max", "any", "all", "std", "var", "prod", "cumsum",
+                     "argsort", "argmax", "argmin", "nonzero", "round", "clip", "dot", "conj", "repeat", "take", "compress", "trace",
+                     "tobytes", "compressed", "count", "format", "join", "split", "strip", "startswith", "endswith", "lower", "upper",
+                     "keys", "index", "isidentifier", "replace", "rstrip", "lstrip", "capitalize", "title", "encode", "decode",
+                     "normal", "uniform", "randint", "rand", "randn", "choice", "random_sample", "permutation", "standard_normal",
+                     "transform", "integrate", "issubset", "union", "intersection", "difference", "total_seconds", "warn"):
+                return self.fresh()
+            return self.unknown()
+        return self.unknown()
+
+    def pkg_call(self, name, args, kws, node, method):
+        """a call resolved (by bare name) to functions of the package: use their summaries"""
+        if name in self.pkg.classes and name not in self.pkg.by_name:
+            return self.fresh()                                # instantiation: a new object
+        cands = [g for g in self.pkg.by_name.get(name, []) if g.qual != "<module>"]
+        if name in self.pkg.classes:
+            cands = [g for g in self.pkg.by_name.get("__init__", []) if g.cls == name]
+        fresh_ret = bool(cands) or name in self.pkg.classes
+        for g in cands:
+            wp = self.summ["writes"].get(g.key, {})
+            ps = g.params[1:] if (g.is_method and (method or name in self.pkg.classes)) else g.params
+            for pname in wp:
+                v = None
+                if pname in ps and ps.index(pname) < len(args):
+                    v = args[ps.index(pname)]
+                elif pname in kws:
+                    v = kws[pname]
+                if v is not None:
+                    self.site("setItem", v, node, f"call of {g.qual}, which writes into its parameter '{pname}'")
+            if name not in self.pkg.classes and g.key not in self.summ["fresh"]:
+                fresh_ret = False
+        return self.fresh() if fresh_ret else self.unknown()
+
+    # -- assignment targets
+    def root_var(self, t):
+        """variable through which an item / attribute assignment writes"""
+        return self.ex(t)
+
+    def assign(self, target, v, value_node, stmt):
+        if isinstance(target, ast.Name):
+            self.emit("view", self.var(target.id), v, True)
+            if self.is_container_expr(value_node):
+                self.containers.add(target.id)
+            else:
+                self.containers.discard(target.id)
+        elif isinstance(target, (ast.Tuple, ast.List)):
+            if isinstance(value_node, (ast.Tuple, ast.List)) and len(value_node.elts) == len(target.elts) and \
+                    not any(isinstance(x, ast.Starred) for x in list(target.elts) + list(value_node.elts)):
+                vs = [self.ex(x) for x in value_node.elts]
+                for t, x, n in zip(target.elts, vs, value_node.elts):
+                    self.assign(t, x, n, stmt)
+            else:
+                for t in target.elts:
+                    self.assign(t.value if isinstance(t, ast.Starred) else t, v, None, stmt)
+        elif isinstance(target, ast.Subscript):
+            base = target.value
+            self.ex_slice(target.slice)
+            if isinstance(base, ast.Name) and base.id in self.containers:
+                b = self.var(base.id)                  # python container: re-binding a slot, the container now also holds v
+                self.ite(lambda: None, lambda: self.emit("view", b, v, True))
+            else:
+                self.site("setItem", self.ex(base), stmt, "item / slice assignment")
+        elif isinstance(target, ast.Attribute):
+            o = self.ex(target.value)
+            if target.attr == "mask":
+                self.site("setMask", o, stmt, "mask assignment")
+            elif target.attr in META_ATTRS:
+                self.site("setItem", o, stmt, f"assignment to .{target.attr} changes the array object in place")
+            else:
+                self.emit("store", 998, v)
+        elif isinstance(target, ast.Starred):
+            self.assign(target.value, v, None, stmt)
+
+    def is_container_expr(self, n):
+        if n is None:
+            return False
+        if isinstance(n, (ast.List, ast.Tuple, ast.Dict, ast.Set, ast.ListComp, ast.DictComp, ast.SetComp)):
+            return True
+        if isinstance(n, ast.Call) and isinstance(n.func, ast.Name) and n.func.id in CONTAINER_CTORS | {"copy", "sorted"}:
+            return True
+        if isinstance(n, ast.BinOp) and (self.is_container_expr(n.left) or self.is_container_expr(n.right)):
+            return True
+        if isinstance(n, ast.IfExp):
+            return self.is_container_expr(n.body) or self.is_container_expr(n.orelse)
+        if isinstance(n, ast.Subscript) and isinstance(n.value, ast.Name) and n.value.id in self.containers and isinstance(n.slice, ast.Slice):
+            return True
+        if isinstance(n, ast.Name):
+            return n.id in self.containers
+        return False
+
+    def assign_iter(self, target, it, iter_node):
+        """bind a loop target to an element of the iterable"""
+        if isinstance(iter_node, ast.Call) and isinstance(iter_node.func, ast.Name):
+            fn = iter_node.func.id
+            if fn == "range":
+                for t in ([target] if not isinstance(target, (ast.Tuple, ast.List)) else target.elts):
+                    self.assign(t, self.scalar(), None, iter_node)
+                return
+            if fn == "enumerate" and isinstance(target, (ast.Tuple, ast.List)) and len(target.elts) == 2 and iter_node.args:
+                self.assign(target.elts[0], self.scalar(), None, iter_node)
+                self.assign(target.elts[1], self.unary("view", self.ex(iter_node.args[0]), False), None, iter_node)
+                return
+            if fn == "zip" and isinstance(target, (ast.Tuple, ast.List)) and len(target.elts) == len(iter_node.args):
+                for t, a in zip(target.elts, iter_node.args):
+                    self.assign(t, self.unary("view", self.ex(a), False), None, iter_node)
+                return
+        self.assign(target, self.unary("view", it, False), None, iter_node)
+
+    # -- statements
+    def stmts(self, body):
+        for s in body:
+            self.stmt(s)
+
+    def stmt(self, s):
+        m = getattr(self, "st_" + type(s).__name__, None)
+        if m is not None:
+            m(s)
+
+    def st_Expr(self, s):
+        self.ex(s.value)
+
+    def st_Assign(self, s):
+        v = self.ex(s.value)
+        for t in s.targets:
+            self.assign(t, v, s.value, s)
+
+    def st_AnnAssign(self, s):
+        if s.value is not None:
+            self.assign(s.target, self.ex(s.value), s.value, s)
+
+    def st_AugAssign(self, s):
+        self.ex(s.value)
+        t = s.target
+        if isinstance(t, ast.Name):
+            self.site("augName", self.var(t.id), s, "augmented assignment to a name")
+        elif isinstance(t, ast.Subscript):
+            self.ex_slice(t.slice)
+            self.site("setItem", self.ex(t.value), s, "augmented assignment to an item / slice")
+        elif isinstance(t, ast.Attribute):
+            self.site("augName", self.ex(t), s, "augmented assignment to an attribute")
+
+    def st_Return(self, s):
+        v = self.ex(s.value) if s.value is not None else self.scalar()
+        self.emit("ret", v)
+        self.site("setItem", v, s, "returned value", kind="ret")
+
+    def st_If(self, s):
+        self.ex(s.test)
+        self.ite(lambda: self.stmts(s.body), lambda: self.stmts(s.orelse))
+
+    def st_For(self, s):
+        it = self.ex(s.iter)
+        self.loop(lambda: (self.assign_iter(s.target, it, s.iter), self.stmts(s.body)))
+        self.stmts(s.orelse)
+
+    st_AsyncFor = st_For
+
+    def st_While(self, s):
+        self.ex(s.test)
+        self.loop(lambda: (self.stmts(s.body), self.ex(s.test)))
+        self.stmts(s.orelse)
+
+    def st_With(self, s):
+        for it in s.items:
+            v = self.ex(it.context_expr)
+            if it.optional_vars is not None:
+                self.assign(it.optional_vars, v, None, s)
+        self.stmts(s.body)
+
+    st_AsyncWith = st_With
+
+    def st_Try(self, s):
+        self.stmts(s.body)
+
+        def handlers(i=0):
+            if i == len(s.handlers):
+                return
+            self.ite(lambda: self.stmts(s.handlers[i].body), lambda: handlers(i + 1))
+        self.ite(lambda: self.stmts(s.orelse), handlers)
+        self.stmts(s.finalbody)
+
+    def st_FunctionDef(self, s):
+        self.local_defs.add(s.name)
+        self.emit("scalar", self.var(s.name))
+
+    st_AsyncFunctionDef = st_FunctionDef
+
+    def st_ClassDef(self, s):
+        self.emit("scalar", self.var(s.name))
+
+    def st_Delete(self, s):
+        pass
+
+    def st_Assert(self, s):
+        self.ex(s.test)
+
+    def st_Raise(self, s):
+        if s.exc is not None:
+            self.ex(s.exc)
+
+    def st_Match(self, s):
+        self.ex(s.subject)
+
+        def cases(i=0):
+            if i == len(s.cases):
+                return
+            self.ite(lambda: self.stmts(s.cases[i].body), lambda: cases(i + 1))
+        cases()
+
+    def run(self):
+        fi = self.fi
+        for p in fi.params + fi.kwonly:
+            self.var(p)
+        for p in (fi.vararg, fi.kwarg):
+            if p:
+                self.var(p)
+                self.containers.add(p)
+        node = fi.node
+        body = node.body
+        self.stmts(body)
+        return self.blocks[0]
+
+
+def scan_package(root=None, max_rounds=8):
+    """translate every function, iterate the summaries (returns-fresh, writes-parameter) to a fixpoint with the
+    Lean analysis as the only judge.  Returns (sites, stats)."""
+    pkg = Package(root or SRC)
+    summ = {"fresh": set(), "writes": {}}
+    rounds = 0
+    result = None
+    while rounds < max_rounds:
+        rounds += 1
+        ops, meta = [], []
+        for fi in pkg.funcs:
+            tr = Tr(pkg, fi, summ)
+            try:
+                body = tr.run()
+            except RecursionError:
+                raise
+            real = [s for s in tr.sites if s["kind"] == "site"]
+            rets = [s for s in tr.sites if s["kind"] == "ret"]
+            if not real and not rets:
+                meta.append((fi, tr, None))
+                continue
+            pvars = [(p, tr.vars[p]) for p in fi.params + fi.kwonly if p in tr.vars and p not in ("self", "cls")]
+            queries = [{"owned": [], "enable": [s["sid"] for s in rets]}]
+            for s in real:
+                queries.append({"owned": [], "enable": [s["sid"]]})
+                for p, v in pvars:
+                    queries.append({"owned": [v], "enable": [s["sid"]]})
+            ops.append({"op": "heap_safeB", "body": body, "queries": queries})
+            meta.append((fi, tr, len(ops) - 1))
+        res = run_driver(ops)
+        fresh2, writes2, sites = set(), {}, []
+        for fi, tr, idx in meta:
+            if idx is None:
+                fresh2.add(fi.key)
+                continue
+            r = res[idx]
+            if isinstance(r, dict):
+                raise RuntimeError(f"driver: {r}")
+            real = [s for s in tr.sites if s["kind"] == "site"]
+            pvars = [p for p in fi.params + fi.kwonly if p in tr.vars and p not in ("self", "cls")]
+            if r[0]:
+                fresh2.add(fi.key)
+            k = 1
+            for s in real:
+                ok = r[k]
+                k += 1
+                by_param = []
+                for p in pvars:
+                    if r[k] and not ok:
+                        by_param.append(p)
+                    k += 1
+                rec = dict(s, rel=fi.rel, func=fi.qual, safe=bool(ok), params=by_param, private=fi.private)
+                sites.append(rec)
+                if not ok and by_param and fi.private:
+                    for p in by_param:
+                        writes2.setdefault(fi.key, {})[p] = True
+        result = (sites, {"functions": len(pkg.funcs), "rounds": rounds, "returns_fresh": len(fresh2),
+                          "writes_param": {f"{k[0]}::{k[1]}": sorted(v) for k, v in writes2.items()}})
+        if fresh2 == summ["fresh"] and writes2 == summ["writes"]:
+            break
+        summ = {"fresh": fresh2, "writes": writes2}
+    return result
